@@ -458,6 +458,9 @@ def make_report(drv, inj):
     """Unsolicited gateway report from a JSON description:
     {"kind": "forward"|"backward"|"error"|"noframe"|"busok"|"stale-answer"|"idle"|"stale-info", ...}"""
     k = inj["kind"]
+    if k == "noise":
+        # line noise while the line is idle: a stray byte (for LUBA the frame-start byte itself)
+        return bytes.fromhex(inj.get("data", "59" if drv == "luba" else "00"))
     if k == "damaged":
         # a gateway packet damaged on the way to the host (serial line noise): no bus frame at all
         if drv == "luba":
